@@ -492,7 +492,9 @@ class ValueMapping:
         """
         values_str = values_list[i]
         valuemap_str = valuemap_list[i]
-        m = re.match(r'^(.*)\.\.(.*)$', valuemap_str)
+        # Note: '\Z' and not '$', because '$' also matches before a trailing
+        # newline (that would silently be dropped from the high end)
+        m = re.match(r'^(.*)\.\.(.*)\Z', valuemap_str)
         if m is None:
             valuemap_int = self._to_int(valuemap_str)
             return (valuemap_int, valuemap_int, values_str)
